@@ -254,6 +254,31 @@ pub fn drive_scripts(s: &mut Session, rng: &mut Rng, thorough: bool) {
         s.bytes(&[0x90 | ch, (k + 1) % 128, 5]);
         s.poll_r();
     }
+    // (a2) 255 / 256 / 257 / 512 note-ons in retrigger mode (and without) that nobody polls in between: the
+    //      edge is still reported exactly once afterwards (two alternating keys, so that the list never fills:
+    //      each is released before it is struck again)
+    for (vi, &n) in [255usize, 256, 257, 512, 65536].iter().enumerate() {
+        if n > 1000 && !thorough && vi % 2 == 1 {
+            continue;
+        }
+        let ch = rng.below(16) as u8;
+        s.start(ch, "kbd");
+        s.retrig(vi % 4 != 3);
+        let k = 20 + rng.below(80) as u8;
+        s.bytes(&[0x90 | ch, k, 100]);
+        s.poll_r();
+        s.poll_f();
+        // one repetition = release the other key (if held), strike it: the gate stays high throughout
+        let pat = [0x90 | ch, k + 1, 90, 0x80 | ch, k + 1, 0];
+        s.repeat(n, 2, |s| s.bytes(&pat));
+        s.poll_r();
+        s.poll_r();
+        s.poll_f();
+        s.bytes(&[0xB0 | ch, 123, 0]);
+        s.poll_f();
+        s.poll_f();
+        s.poll_r();
+    }
     // (b) 33..45 distinct keys down, released one by one in random order, then a new key
     for variant in 0..(if thorough { 12 } else { 4 }) {
         let ch = rng.below(16) as u8;
@@ -555,6 +580,52 @@ pub fn drive_framing(s: &mut Session, rng: &mut Rng, scale: usize) {
     }
 }
 
+/// long stretches of bytes that must change nothing (run-length compressed): floods of 1 .. 1100 real-time
+/// bytes inside and between messages under running status, and system-exclusive dumps of up to 5000 data
+/// bytes after a listened-channel message - a parser that "gives up" or "resynchronises" after some count
+/// shows only here
+pub fn drive_floods(s: &mut Session, rng: &mut Rng, thorough: bool) {
+    let counts: Vec<usize> = vec![1, 2, 23, 24, 25, 95, 96, 97, 127, 128, 129, 255, 256, 257, 300, 1000, 1100];
+    for (i, &n) in counts.iter().enumerate() {
+        for split in 0..4usize {
+            if !thorough && (i + split) % 2 == 1 {
+                continue;
+            }
+            let c = rng.below(16) as u8;
+            s.start(c, "framing");
+            let rt = *rng.pick(&[0xF8u8, 0xF8, 0xFE, 0xFA]);
+            let msg = [0x90 | c, 60 + split as u8, 100];
+            // the flood after `split` bytes of a note-on, then the rest, then another note under running status
+            s.bytes(&msg[..split.min(3)]);
+            s.repeat(n, 2, |s| s.byte(rt));
+            s.bytes(&msg[split.min(3)..]);
+            s.bytes(&[64, 80]);
+            s.poll_r();
+            s.repeat(n, 2, |s| s.byte(rt));
+            s.bytes(&[65, 0]);
+            s.bytes(&[64, 0, 60 + split as u8, 0]);
+            s.poll_f();
+        }
+    }
+    for &n in [3usize, 100, 1023, 1024, 1025, 1030, 2048, 5000].iter() {
+        let c = rng.below(16) as u8;
+        s.start(c, "framing");
+        s.bytes(&[0x90 | c, 60, 100]);
+        s.byte(0xF0);
+        let d = [0x3Eu8, 0x50];
+        s.repeat(n / 2, 2, |s| s.bytes(&d));
+        s.byte(0xF7);
+        s.poll_r();
+        s.bytes(&[0x90 | c, 62, 90, 60, 0]);
+        s.bytes(&[0xB0 | c, 7, 99]);
+        // the same without a terminator: the next status byte ends the dump
+        s.byte(0xF0);
+        s.repeat(n / 2, 2, |s| s.bytes(&d));
+        s.bytes(&[0x80 | c, 62, 0]);
+        s.poll_f();
+    }
+}
+
 /// short byte sequences, exhaustively, after each of a set of wire-state prefixes
 pub fn drive_short(s: &mut Session, rng: &mut Rng, full: bool, shard: Option<usize>) {
     let c = rng.below(16) as u8;
@@ -798,6 +869,7 @@ pub fn record(driver: &str, seed: u64, thorough: bool, out: &mut Out) -> Stats {
         }
         "framing" => {
             drive_framing(&mut s, &mut rng, if thorough { 6 } else { 1 });
+            drive_floods(&mut s, &mut rng, thorough);
         }
         "short" => drive_short(&mut s, &mut rng, thorough, shard),
         "ctl" => drive_ctl(&mut s, &mut rng, thorough),
